@@ -958,7 +958,7 @@ with match_compound (fuel : nat) (e : env) (p : path) (tag : option stag) (ids c
     mdo b_ind <- (if has_flag flags SEL_INDETERMINATE then match_indeterminate p else ret true) ;;;
     if negb b_ind then ret false else
     mdo b_dir <- lift (if has_flag flags DIR_FLAGS
-                   then match_dir (S (length p)) (Some p) (N.land flags DIR_FLAGS) else Ok true) ;;;
+                   then match_dir (S (S (length p))) (Some p) (N.land flags DIR_FLAGS) else Ok true) ;;;
     if negb b_dir then ret false else
     ret (match contains with [] => true | _ => match_contains p contains end)
   end
@@ -1069,7 +1069,7 @@ Definition mk_ctx (t : tree) (scope : path) : ctx :=
                 end in
   Ctx t (match scope with [] => root | _ => Some scope end) root (t_xml t) (negb (t_xml t) || has_ns) has_ns.
 
-Definition api_fuel (l : sellist) : nat := S (S (sl_depth l)).
+Definition api_fuel (l : sellist) : nat := 3 * sl_depth l + 3.
 
 (* SoupSieve.match / select / closest / filter(tag): a new matcher (fresh memo) per call.
    `target` must be a Tag (element or document object), else TypeError. *)
